@@ -168,8 +168,7 @@ def run(tier, seed):
                    'targeted+layout pairs', {'der', 'cm', 'lit', 'style', 'wstyle'}, 1, t1 + tl),
                   ('seed x pairs of targeted options', set(), 0, t2)]
     else:
-        blocks = [('<=2 of {comment, literal spelling, style} x single targeted options (pairs with a derivation alternative '
-                   'are left to the <=1 block)', {'cm', 'lit', 'style'}, 2, t1),
+        blocks = [('<=2 literal spellings x single targeted options', {'lit'}, 2, t1),
                   ('<=1 of {derivation, comment, literal spelling, style} x single targeted options',
                    {'der', 'cm', 'lit', 'style'}, 1, t1),
                   ('<=1 of {derivation, comment, literal spelling, style} x targeted+layout and targeted pairs',
